@@ -19,6 +19,8 @@ pub struct Scenario {
 pub fn generate(seed: u64, tier: Tier) -> Scenario {
     let mut rng = Rng::new(derive(seed, 9, 0));
     let cfg = if rng.chance(1, 4) { GenConfig::medium() } else { GenConfig::small() }.swarm(&mut rng);
+    let mut cfg = cfg;
+    cfg.vardct = rng.chance(1, 3);
     let case = valid_stream(&mut rng, &cfg, if tier == Tier::Quick { 1500 } else { 300 }, 40);
     let len = case.bytes.len();
     let n = if tier == Tier::Quick { 3 } else { 6 };
@@ -62,6 +64,7 @@ pub fn digest(sc: &Scenario) -> u64 {
 }
 
 fn viol(seed: u64, sc: &Scenario, class: String, detail: String) -> Violation {
+    let class = if sc.case.has_vardct && !class.starts_with("panic:") { format!("{class}+vardct") } else { class };
     Violation { property: "C09".into(), check: "c09".into(), class, detail, seed, scenario: serde_json::to_value(sc).unwrap() }
 }
 
